@@ -423,7 +423,19 @@ func c02Actions(shard, nshards int, only string, emit func(*C02Line), errs *[]st
 					"router": M{"type": "switch", "operand": "@input.text", "wait": M{"type": "msg"}, "default_category_uuid": cu, "cases": []M{},
 						"categories": []M{{"uuid": cu, "name": "All", "exit_uuid": eu}}},
 					"exits": []M{{"uuid": eu, "destination_uuid": su}}},
-					M{"uuid": su, "actions": []M{{"uuid": "9a7e1c5e-0000-4000-8000-000000000005", "type": "send_msg", "text": "after @contact.name @(json(results))"}}, "exits": []M{{"uuid": "9a7e1c5e-0000-4000-8000-000000000006"}}})
+					M{"uuid": su, "actions": []any{M{"uuid": "9a7e1c5e-0000-4000-8000-000000000005", "type": "send_msg", "text": "after @contact.name @(json(results))"}}, "exits": []M{{"uuid": "9a7e1c5e-0000-4000-8000-000000000006"}}})
+				// the same action once more AFTER the wait, in the same run: whatever the run remembers from its first execution
+				// (and a restored run has to work out again) meets the input received in between
+				if am, ok := act.(map[string]any); ok {
+					again := map[string]any{}
+					for k, v := range am {
+						again[k] = v
+					}
+					again["uuid"] = "9a7e1c5e-0000-4000-8000-000000000007"
+					last := fl["nodes"].([]any)
+					sn := last[len(last)-1].(M)
+					sn["actions"] = append(sn["actions"].([]any), again)
+				}
 				if tc.Localization != nil {
 					var loc any
 					json.Unmarshal(tc.Localization, &loc)
